@@ -235,3 +235,194 @@ pub proof fn lemma_roundtrip_UnknownAttributes(x: UnknownAttributes, enc: Seq<u8
 }
 } // mod vx_unknown_attributes
 pub use vx_unknown_attributes::UnknownAttributes;
+
+// ---------------------------------------------------------------- PASSWORD-ALGORITHM (RFC 8489 14.12): algorithm(16) length(16) parameters
+//@consts stun_rs :: mod attributes > mod stun > mod password_algorithm
+//@item! stun_rs :: mod attributes > mod stun > mod password_algorithm > struct PasswordAlgorithm
+impl StunAttributeType for PasswordAlgorithm {
+    open spec fn spec_type() -> u16 { 0x001D }
+//@item stun_rs :: mod attributes > mod stun > mod password_algorithm > impl crate::attributes::StunAttributeType for PasswordAlgorithm > fn get_type
+//@tags C02 C01
+//@end
+//@item stun_rs :: mod attributes > mod stun > mod password_algorithm > impl crate::attributes::StunAttributeType for PasswordAlgorithm > fn attribute_type
+//@tags C02 C01
+//@end
+}
+impl PasswordAlgorithm {
+//@item stun_rs :: mod attributes > mod stun > mod password_algorithm > impl PasswordAlgorithm > fn new
+//@tags C19
+//@spec
+    ensures r.0 == algorithm,
+//@end
+//@item stun_rs :: mod attributes > mod stun > mod password_algorithm > impl PasswordAlgorithm > fn algorithm
+//@tags C19
+//@spec
+    ensures r == self.0.algorithm,
+//@end
+//@item stun_rs :: mod attributes > mod stun > mod password_algorithm > impl PasswordAlgorithm > fn parameters
+//@tags C19
+//@spec
+    ensures r is Some <==> self.0.params is Some, r is Some ==> r->Some_0@ == self.0.params->Some_0@,
+//@end
+}
+pub open spec fn pa_plen(a: Algorithm) -> int { match a.params_view() { Some(p) => p.len() as int, None => 0 } }
+pub open spec fn pa_wire(a: Algorithm) -> Seq<u8> {
+    be16_seq(alg_code(a.algorithm) as int) + be16_seq(pa_plen(a)) + (match a.params_view() { Some(p) => p, None => Seq::<u8>::empty() })
+}
+pub open spec fn pa_unwire(raw: Seq<u8>) -> Option<Algorithm> {
+    if raw.len() >= 4 && raw.len() >= 4 + be16(raw.subrange(2, 4)) {
+        let n = be16(raw.subrange(2, 4));
+        Some(Algorithm { algorithm: alg_of(be16(raw.subrange(0, 2)) as u16), params: if n > 0 { Some(vx_arc_vec(raw.subrange(4, 4 + n))) } else { None } })
+    } else { None }
+}
+impl EncodeAttributeValue for PasswordAlgorithm {
+    open spec fn wire(&self, enc: Seq<u8>) -> Seq<u8> { pa_wire(self.0) }
+    open spec fn encodable(&self, enc: Seq<u8>) -> bool { pa_plen(self.0) <= 0xFFFF }
+//@item stun_rs :: mod attributes > mod stun > mod password_algorithm > impl EncodeAttributeValue for PasswordAlgorithm > fn encode
+//@tags C01 C02 C14 C03
+//@rules R5P
+//@head
+    proof { if self.0.params is Some { axiom_vec_len_limit(&*self.0.params->Some_0); } }
+//@stmt "Ok(len)"
+    proof {
+        assert(raw_value@.subrange(0, 2) == be16_seq(alg_code(self.0.algorithm) as int));
+        assert(raw_value@.subrange(2, 4) == be16_seq(pa_plen(self.0)));
+        assert(raw_value@.subrange(0, len as int) =~= pa_wire(self.0));
+    }
+//@end
+}
+impl DecodeAttributeValue for PasswordAlgorithm {
+    open spec fn unwire(raw: Seq<u8>, prefix: Seq<u8>) -> Option<Self> {
+        match pa_unwire(raw) { Some(a) => Some(PasswordAlgorithm(a)), None => None }
+    }
+//@item stun_rs :: mod attributes > mod stun > mod password_algorithm > impl DecodeAttributeValue for PasswordAlgorithm > fn decode
+//@tags C01 C02 C03 C19
+//@spec
+    // (in addition to the trait contract) exactly the item is consumed, not what follows it
+    ensures r is Ok ==> r->Ok_0.1 == 4 + pa_plen_wire(ctx.raw_value@),
+//@stmt "Ok((Self(algorithm_param), size))"
+    proof {
+        assert(raw_value@.subrange(0, 2) =~= ctx.raw_value@.subrange(0, 2));
+        if algorithm_param.params is Some { lemma_arc_vec(algorithm_param.params->Some_0); }
+        lemma_algorithm_ext(algorithm_param, pa_unwire(ctx.raw_value@)->Some_0);
+    }
+//@end
+}
+
+// ---------------------------------------------------------------- PASSWORD-ALGORITHMS (RFC 8489 14.11): PASSWORD-ALGORITHM items, each but the
+// last padded to a multiple of 4
+//@consts stun_rs :: mod attributes > mod stun > mod password_algorithms
+//@item! stun_rs :: mod attributes > mod stun > mod password_algorithms > struct PasswordAlgorithms
+impl StunAttributeType for PasswordAlgorithms {
+    open spec fn spec_type() -> u16 { 0x8002 }
+//@item stun_rs :: mod attributes > mod stun > mod password_algorithms > impl crate::attributes::StunAttributeType for PasswordAlgorithms > fn get_type
+//@tags C02 C01
+//@end
+//@item stun_rs :: mod attributes > mod stun > mod password_algorithms > impl crate::attributes::StunAttributeType for PasswordAlgorithms > fn attribute_type
+//@tags C02 C01
+//@end
+}
+impl Default for PasswordAlgorithms {
+//@item stun_rs :: mod attributes > mod stun > mod password_algorithms > impl ::core::default::Default for PasswordAlgorithms > fn default
+//@tags C19
+//@spec
+    ensures r.algorithms@ == Seq::<PasswordAlgorithm>::empty(),
+//@end
+}
+impl Clone for PasswordAlgorithm {
+//@item stun_rs :: mod attributes > mod stun > mod password_algorithm > impl ::core::clone::Clone for PasswordAlgorithm > fn clone
+//@tags C19
+//@end
+}
+impl Clone for Algorithm {
+//@item stun_rs :: mod algorithm > impl ::core::clone::Clone for Algorithm > fn clone
+//@tags C19
+//@end
+}
+impl PasswordAlgorithms {
+//@item stun_rs :: mod attributes > mod stun > mod password_algorithms > impl PasswordAlgorithms > fn add
+//@tags C19 C01
+//@sub "Arc::make_mut(" => "vx_arc_make_mut("
+//@spec
+    // never panics, also when the value is a clone sharing its list (copy-on-write); the other copy is a different value
+    ensures final(self).algorithms@ == old(self).algorithms@.push(algorithm),
+//@end
+//@item stun_rs :: mod attributes > mod stun > mod password_algorithms > impl PasswordAlgorithms > fn password_algorithms
+//@tags C19
+//@spec
+    ensures r@ == self.algorithms@,
+//@end
+}
+// the list a PASSWORD-ALGORITHMS value decodes to, reading from offset `off` after an item of length `prev`
+pub open spec fn pas_unwire(raw: Seq<u8>, off: int, prev: int) -> Option<Seq<Algorithm>>
+    decreases raw.len() - off
+{
+    if off < 0 || off >= raw.len() { Some(Seq::<Algorithm>::empty()) } else {
+        let o2 = off + pad4(prev);
+        if o2 > raw.len() { None } else {
+            match pa_unwire(raw.subrange(o2, raw.len() as int)) {
+                None => None,
+                Some(a) => {
+                    let l = 4 + pa_plen_wire(raw.subrange(o2, raw.len() as int));
+                    match pas_unwire(raw, o2 + l, l) { None => None, Some(rest) => Some(seq![a] + rest) }
+                }
+            }
+        }
+    }
+}
+pub open spec fn pa_plen_wire(raw: Seq<u8>) -> int { be16(raw.subrange(2, 4)) }
+pub open spec fn pas_algs(p: PasswordAlgorithms) -> Seq<Algorithm> { Seq::new(p.algorithms@.len(), |k: int| p.algorithms@[k].0) }
+impl DecodeAttributeValue for PasswordAlgorithms {
+    open spec fn unwire(raw: Seq<u8>, prefix: Seq<u8>) -> Option<Self> {
+        match pas_unwire(raw, 0, 0) {
+            Some(l) => Some(choose|p: PasswordAlgorithms| pas_algs(p) == l),
+            None => None,
+        }
+    }
+//@item stun_rs :: mod attributes > mod stun > mod password_algorithms > impl DecodeAttributeValue for PasswordAlgorithms > fn decode
+//@tags C01 C02 C03 C19
+//@before "let mut size = 0;"
+    let ghost raw = ctx.raw_value@;
+//@loop 1
+    invariant raw == ctx.raw_value@, raw_value@ == raw, raw.len() <= 0xFFFF, total_size <= raw.len(), size <= raw.len(),
+        pas_unwire(raw, 0, 0) == (match pas_unwire(raw, total_size as int, size as int) {
+            Some(rest) => Some(pas_algs(attr) + rest), None => None::<Seq<Algorithm>> }),
+    decreases raw.len() - total_size,
+//@loopstart 1
+    let ghost vx_attr0 = attr;
+    let ghost ts0 = total_size as int;
+    let ghost sz0 = size as int;
+//@loopend 1
+    proof {
+        assert(pas_algs(attr) =~= pas_algs(vx_attr0).push(val.0));
+        assert(pas_algs(vx_attr0) + (seq![val.0] + pas_unwire(raw, total_size as int, size as int)->Some_0)
+            =~= pas_algs(attr) + pas_unwire(raw, total_size as int, size as int)->Some_0);
+    }
+//@stmt "Ok((attr, total_size))"
+    proof {
+        assert(pas_algs(attr) + Seq::<Algorithm>::empty() =~= pas_algs(attr));
+        let p1 = choose|p: PasswordAlgorithms| pas_algs(p) == pas_algs(attr);
+        lemma_pas_ext(attr, p1);
+    }
+//@end
+}
+#[verifier::external_body]
+pub proof fn axiom_arc_vec_pa_ext(a: Arc<Vec<PasswordAlgorithm>>, b: Arc<Vec<PasswordAlgorithm>>)
+    ensures a@ == b@ ==> a == b,
+{}
+pub proof fn lemma_pas_ext(a: PasswordAlgorithms, b: PasswordAlgorithms)
+    requires pas_algs(a) == pas_algs(b),
+    ensures a == b,
+{
+    assert(a.algorithms@.len() == pas_algs(a).len() && b.algorithms@.len() == pas_algs(b).len());
+    assert forall|k: int| 0 <= k < a.algorithms@.len() implies a.algorithms@[k] == b.algorithms@[k] by {
+        assert(pas_algs(a)[k] == pas_algs(b)[k]);
+        assert(pas_algs(a)[k] == a.algorithms@[k].0);
+        assert(pas_algs(b)[k] == b.algorithms@[k].0);
+        let x = a.algorithms@[k]; let y = b.algorithms@[k];
+        assert(x.0 == y.0);
+        assert(x == PasswordAlgorithm(x.0) && y == PasswordAlgorithm(y.0));
+    }
+    assert(a.algorithms@ =~= b.algorithms@);
+    axiom_arc_vec_pa_ext(a.algorithms, b.algorithms);
+}
